@@ -223,6 +223,52 @@ def mk_planning_problems(F):
     return F.new(PlanningProblemSet, [pp])
 
 
+def state_of(F, cls, t, p):
+    import dataclasses
+
+    import commonroad.scenario.state as st
+    kw = {}
+    for f in dataclasses.fields(cls):
+        if f.name == "time_step":
+            kw[f.name] = t
+        elif f.name == "position":
+            kw[f.name] = pos(F, p + "p")
+        elif f.name == "orientation":
+            kw[f.name] = ang(F, p + "o")
+        elif f.name == "hitch_angle":
+            kw[f.name] = ang(F, p + "h")
+        else:
+            kw[f.name] = F.real(p + f.name)
+    return F.new(cls, **kw)
+
+
+def state_classes():
+    import dataclasses
+
+    import commonroad.scenario.state as st
+
+    out = []
+    for cls in st.SpecificStateClasses:
+        names = {f.name for f in dataclasses.fields(cls)}
+        if cls is not st.InitialState and {"position", "time_step"} <= names:
+            out.append(cls)
+    return out
+
+
+def mk_trajectory_scenario(F, cls, shape_kind="rectangle"):
+    """one dynamic obstacle whose two trajectory states are of class `cls`, every attribute symbolic"""
+    from commonroad.scenario.scenario import Location as _Loc
+
+    sc = F.new(Scenario, positive(F, "dt"), F.new(ScenarioID), "author", {Tag.URBAN}, "affiliation", "source", F.new(_Loc))
+    if shape_kind == "group":
+        shape = F.new(ShapeGroup, [F.new(Rectangle, positive(F, "o_l"), positive(F, "o_w")), F.new(Circle, positive(F, "o_r"), pos(F, "o_c"))])
+    else:
+        shape = F.new(Rectangle, positive(F, "o_l"), positive(F, "o_w"))
+    traj = F.new(Trajectory, 1, [state_of(F, cls, 1, "s1_"), state_of(F, cls, 2, "s2_")])
+    F.method(sc, "add_objects", F.new(DynamicObstacle, 11, ObstacleType.CAR, shape, initial_state(F, "i_"), F.new(TrajectoryPrediction, traj, shape)))
+    return sc
+
+
 class RoundTrip(Contract):
     prop = "C01"
     unroll = {"commonroad.common.util.make_valid_orientation": 3, "commonroad.common.util.make_valid_orientation_interval": 3}
@@ -277,3 +323,79 @@ for _d, _cname in [(d, c) for d in PRECISIONS for c in CONTENTS]:
                     yield ("%s reproduced" % role,) + approx_parts(F.items(F.attr(inp["sc"], role)), F.items(F.attr(sc2, role)), tol, F, path=role)
                 for k in ("dt", "scenario_id", "author", "tags", "affiliation", "source", "location"):
                     yield ("scenario %s reproduced" % k,) + approx_parts(F.attr(inp["sc"], k), F.attr(sc2, k), tol, F, path=k)
+
+
+# ------------------------------------------------------------------------------ every state class, shape group, interval-valued states
+
+XML_STATE_PRECISIONS = (4,) if os.environ.get("VERIF_TIER") != "thorough" else (1, 4, 12)
+
+
+def _whole_file_post(self, F, inp, out):
+    yield ("writing and reading raise nothing", out.exc is None)
+    if out.exc is None:
+        sc2, pps2 = F.items(out.value)
+        tol = z3.Q(1, 10 ** self.d)
+        for role in ("static_obstacles", "dynamic_obstacles"):
+            yield ("%s reproduced" % role,) + approx_parts(F.items(F.attr(inp["sc"], role)), F.items(F.attr(sc2, role)), tol, F, path=role)
+
+
+def _whole_file_invoke(self, F, inp):
+    path = "/nonexistent-dir/verif_c01x_%d.xml" % self.d
+    if F.native:
+        from pyvc.contract import scratch_dir
+
+        path = os.path.join(scratch_dir("c01_"), "out.xml")
+    w = F.new(CommonRoadFileWriter, inp["sc"], inp["pps"], decimal_precision=self.d, file_format=FileFormat.XML)
+    F.method(w, "write_to_file", path, OverwriteExistingFile.ALWAYS)
+    return F.method(F.new(CommonRoadFileReader, path), "open")
+
+
+for _d, _cls in [(d, c) for d in XML_STATE_PRECISIONS for c in state_classes()]:
+
+    @register
+    class TrajectoryStatesXml(RoundTrip):
+        target = "commonroad.common.file_writer.CommonRoadFileWriter.write_to_file"
+        case = "trajectory of %s, decimal precision %d" % (_cls.__name__, _d)
+        d, cls = _d, _cls
+        describe = "dynamic obstacle whose trajectory states are of this class: the reader picks the same class, every value within 10^-d"
+
+        def build(self, F):
+            return {"sc": mk_trajectory_scenario(F, self.cls), "pps": F.new(PlanningProblemSet), "args": []}
+
+        invoke = _whole_file_invoke
+        post = _whole_file_post
+
+
+@register
+class ShapeGroupObstacleXml(RoundTrip):
+    target = "commonroad.common.file_writer.CommonRoadFileWriter.write_to_file"
+    case = "obstacle with a shape group (rectangle + circle), decimal precision 4"
+    d = 4
+    describe = "a ShapeGroup obstacle shape is written member by member and read back as the same group"
+
+    def build(self, F):
+        return {"sc": mk_trajectory_scenario(F, st.KSState, "group"), "pps": F.new(PlanningProblemSet), "args": []}
+
+    invoke = _whole_file_invoke
+    post = _whole_file_post
+
+
+@register
+class IntervalStatesXml(RoundTrip):
+    target = "commonroad.common.file_writer.CommonRoadFileWriter.write_to_file"
+    case = "trajectory states with interval-valued and region-valued attributes, decimal precision 4"
+    d = 4
+    describe = "exact / interval / region valued attributes of trajectory states keep their kind and their values"
+
+    def build(self, F):
+        sc = F.new(Scenario, positive(F, "dt"), F.new(ScenarioID), "author", {Tag.URBAN}, "affiliation", "source", F.new(Location))
+        shape = F.new(Rectangle, positive(F, "o_l"), positive(F, "o_w"))
+        s1 = F.new(st.CustomState, time_step=1, position=F.new(Rectangle, positive(F, "r_l"), positive(F, "r_w"), pos(F, "r_c"), ang(F, "r_o")),
+                   orientation=angle_interval(F, "s1_or"), velocity=interval(F, "s1_v"))
+        s2 = F.new(st.CustomState, time_step=2, position=F.new(Circle, positive(F, "c_r"), pos(F, "c_c")), orientation=ang(F, "s2_o"), velocity=F.real("s2_v"))
+        traj = F.new(Trajectory, 1, [s1, s2])
+        F.method(sc, "add_objects", F.new(DynamicObstacle, 11, ObstacleType.CAR, shape, initial_state(F, "i_"), F.new(TrajectoryPrediction, traj, shape)))
+        return {"sc": sc, "pps": F.new(PlanningProblemSet), "args": []}
+
+    invoke = _whole_file_invoke
+    post = _whole_file_post
